@@ -678,6 +678,9 @@ class Model(EconomicObject):
         :return:
         """
         Logger('_FinalEquationFormatting()', priority=5)
+        # One equation is one line of the text: a line break inside a description (or a right hand side written over
+        # several lines) would otherwise start a new line, which is read as another equation - or not read at all.
+        out = [(row[0], ' '.join(row[1].splitlines()), ' '.join(row[2].splitlines())) for row in out]
         endo = []
         exo = []
         for row in out:
